@@ -264,11 +264,7 @@ impl GenerationPass for AvailableValuePass {
                 if !matches!(&node.node(), ParserNode::Load(load) if *load.inst.get() != LoadType::Lw) {
                     rule_value_from_stack(&node.node(), &mut out_reg_n, &node.memory_values_in());
                 }
-                rule_pull_value_from_csr_memory(
-                    &node.node(),
-                    &mut out_reg_n,
-                    &node.memory_values_out(),
-                );
+                rule_pull_value_from_csr_memory(&node.node(), &mut out_reg_n, &out_memory_n);
                 rule_zero_to_const(&mut out_reg_n, &mut out_memory_n);
                 rule_perform_math_ops(&node.node(), &mut out_reg_n, &node.reg_values_in());
                 rule_push_value_to_csr_memory(&node.node(), &mut out_memory_n, &out_reg_n);
